@@ -94,7 +94,9 @@ pub fn run(a: &Args) {
             let scheme = sh["scheme"].as_str().unwrap();
             let tokn = r.next() % 100000;
             let user = if sh["hasuser"].as_bool().unwrap() {
-                Some(match r.below(6) {
+                Some(match r.below(8) {
+                    6 => format!("alice{}@example.com", tokn),
+                    7 => format!("DOMAIN%5Cuser{}", tokn),
                     4 => format!("a%3Ab{}", tokn),
                     5 => format!("U{}", tokn),
                     0 => format!("usr{}", tokn),
